@@ -17,7 +17,7 @@ from ..world import h64
 
 ID = "C17"
 RULE = (
-    "boxes = all pairs lo < hi from a 19-value alphabet (decimal, tiny, huge); inputs per box = lo/hi/mid + k*range for k in -5..5, each "
+    "boxes = all pairs lo < hi from a 19-value alphabet (decimal, tiny, huge) plus 7 very narrow boxes (width 1e-15 .. 1e-12, at the origin and offset); inputs per box = lo/hi/mid + k*range for k in -5..5, each "
     "shifted by -3..+3 ulps, plus an interior grid, plus 0.0 and +-1e300 guard values; methods clip/reflect/toroidal; each (box, input, "
     "method) is one application of the real apply_bounds, judged exactly (fractions); thorough: the same oracle over all 63488 finite "
     "float16 values x 40 float16 boxes; non-trivial = the input lies outside the box or within 3 ulps of a face"
@@ -33,8 +33,11 @@ VALS = [-20.0, -5.0, -3.0, -1 / 3, -0.1, 1e-9, 1e-3, 0.1, 0.2, 0.3, 1 / 3, 0.7, 
 METHODS = ("clip", "reflect", "toroidal")
 
 
+NARROW = [(0.0, 1e-15), (-3e-14, 5e-14), (1.0, 1.0000000000001), (-1e-13, 0.0), (123.456, 123.456000000001), (1e-300, 3e-300), (-0.1, -0.09999999999999)]
+
+
 def boxes():
-    return [(a, b) for a, b in itertools.combinations(sorted(VALS), 2)]
+    return [(a, b) for a, b in itertools.combinations(sorted(VALS), 2)] + NARROW
 
 
 def inputs_for(lo, hi):
